@@ -13,10 +13,10 @@ pub struct Sym { pub radial: bool, pub el: u8, pub vol: u16, pub id: u64 }
 fn sym_of(v: &Value) -> Sym { Sym { radial: v["k"] == json!("R"), el: v["el"].as_u64().unwrap_or(0) as u8, vol: v["vol"].as_u64().unwrap_or(0) as u16, id: v["id"].as_u64().unwrap_or(0) } }
 fn sym_json(s: &Sym) -> Value { if s.radial { json!({"k": "R", "el": s.el, "vol": s.vol, "id": s.id}) } else { json!({"k": "M", "el": 0, "vol": 0, "id": 0}) } }
 
-const DATE: u16 = 19_800;
+pub const DATE: u16 = 19_800;
 
 /// one message frame; the tag of a radial travels in the collection time (ms of day) and the azimuth number
-fn frame(l: &Layouts, rng: &mut Rng, s: &Sym, k: usize) -> Vec<u8> {
+pub fn frame(l: &Layouts, rng: &mut Rng, s: &Sym, k: usize) -> Vec<u8> {
     if !s.radial {
         let ty = [2u8, 5, 15, 18, 3, 13][k % 6];
         let mut f = crate::frames::msg_header_bytes(ty, k as u16, 1208);
